@@ -1190,7 +1190,11 @@ Token *clangimport::AstNode::createTokens(TokenList &tokenList)
     if (nodeType == MemberExpr) {
         Token *s = getChild(0)->createTokens(tokenList);
         Token *dot = addtoken(tokenList, ".");
-        std::string memberName = getSpelling();
+        // "... ->name 0xaddr" can be followed by a flag (non_odr_use_unevaluated, ...): locate the address first
+        int addrIndex = mExtTokens.size() - 1;
+        while (addrIndex > 1 && !startsWith(mExtTokens[addrIndex],"0x"))
+            --addrIndex;
+        std::string memberName = (addrIndex >= 1) ? mExtTokens[addrIndex - 1] : std::string();
         if (startsWith(memberName, "->")) {
             dot->originalName("->");
             memberName = memberName.substr(2);
@@ -1200,7 +1204,7 @@ Token *clangimport::AstNode::createTokens(TokenList &tokenList)
         if (memberName.empty())
             memberName = "<unknown>";
         Token *member = addtoken(tokenList, memberName);
-        mData->ref(mExtTokens.back(), member);
+        mData->ref(mExtTokens[addrIndex], member);
         dot->astOperand1(s);
         dot->astOperand2(member);
         return dot;
